@@ -1404,6 +1404,27 @@ impl SubRule {
         Ok(syll)
     }
     
+    /// The segment at `sp` has been replaced by a syllable and its own syllable split around it, which added `added` syllables:
+    /// the elements captured after it now sit in later syllables
+    fn shift_captures_after_split(later: &mut [MatchElement], total_len_change: &mut Vec<i8>, sp: SegPos, added: usize) {
+        for el in later.iter_mut() {
+            match el {
+                MatchElement::Segment(p, _) => if p.syll_index == sp.syll_index && p.seg_index > sp.seg_index {
+                    p.syll_index += added;
+                    p.seg_index -= sp.seg_index + 1;
+                } else if p.syll_index > sp.syll_index {
+                    p.syll_index += added;
+                },
+                MatchElement::Syllable(i, _) | MatchElement::SyllBound(i, _) => if *i > sp.syll_index {
+                    *i += added;
+                },
+            }
+        }
+        for _ in 0..added {
+            total_len_change.insert(sp.syll_index + 1, 0);
+        }
+    }
+
     // TODO: break this up
     fn substitution(&self, word: &Word, input: Vec<MatchElement>, next_pos: &mut Option<SegPos>) -> Result<Word, RuleRuntimeError> {
         // the SegPositions captured in input will not be correct if we change the length of a segment
@@ -1495,23 +1516,7 @@ impl SubRule {
                             if state_index >= self.output.len()-1 {
                                 last_pos.decrement(&res_word);
                             }
-                            // the syllable has been split, so the elements captured after this one now sit in later syllables
-                            for later in input.iter_mut().skip(state_index + 1) {
-                                match later {
-                                    MatchElement::Segment(p, _) => if p.syll_index == sp.syll_index && p.seg_index > sp.seg_index {
-                                        p.syll_index += added;
-                                        p.seg_index -= sp.seg_index + 1;
-                                    } else if p.syll_index > sp.syll_index {
-                                        p.syll_index += added;
-                                    },
-                                    MatchElement::Syllable(i, _) | MatchElement::SyllBound(i, _) => if *i > sp.syll_index {
-                                        *i += added;
-                                    },
-                                }
-                            }
-                            for _ in 0..added {
-                                total_len_change.insert(sp.syll_index + 1, 0);
-                            }
+                            Self::shift_captures_after_split(&mut input[state_index + 1..], &mut total_len_change, sp, added);
                         },
                         MatchElement::SyllBound(_, _) => return Err(RuleRuntimeError::SubstitutionSyllBound(in_state.position, out_state.position))
                     }
@@ -1644,9 +1649,11 @@ impl SubRule {
                                     res_word.syllables.insert(sp.syll_index+1, insert_syll.clone());
                                     adjustment = 1;
                                 }
+                                let mut added = adjustment;
                                 if !new_syll.segments.is_empty() {
                                     res_word.syllables.insert(sp.syll_index+1+adjustment, new_syll);
                                     last_pos.syll_index = sp.syll_index + 2 + adjustment;
+                                    added += 1;
                                 } else {
                                     last_pos.syll_index = sp.syll_index + 1 + adjustment;
                                 }
@@ -1654,6 +1661,7 @@ impl SubRule {
                                 if state_index >= self.output.len()-1 {
                                     last_pos.decrement(&res_word);
                                 }
+                                Self::shift_captures_after_split(&mut input[state_index + 1..], &mut total_len_change, sp, added);
                             },
                             (MatchElement::SyllBound(..), VarKind::Segment(..)) |
                             (MatchElement::Syllable(..),  VarKind::Segment(..)) => return Err(RuleRuntimeError::SubstitutionSylltoSeg(in_state.position, out_state.position)),
